@@ -11,9 +11,9 @@ SINGLE = ["receive_u16", "receive_slice", "send_receive_u16", "send_receive_slic
 MULTI = ["status", "eeprom_read", "eeprom_read_raw", "sdo_read", "sdo_write", "into_op", "lrw_tx_rx"]
 
 
-def case(i, entry, mode="default", with_=1, kind="none", k=1, w=0, network=2):
+def case(i, entry, mode="default", with_=1, kind="none", k=1, w=0, network=2, len_override="none"):
     return {"id": f"{entry}-{i}", "entry": entry, "wkc_mode": mode, "with": with_,
-            "fault": {"kind": kind, "k": k, "w": w}, "network": network}
+            "fault": {"kind": kind, "k": k, "w": w}, "network": network, "len_override": len_override}
 
 
 def run(pid, tier):
@@ -37,6 +37,11 @@ def run(pid, tier):
                     for network in (2, 3):
                         cases.append(case(n, entry, mode, with_, kind, 1, w, network))
                         n += 1
+                    # the builder calls of a write commute: an explicit length before or after the counter mode
+                    if entry.startswith("send_receive"):
+                        for lo in ("before", "after"):
+                            cases.append(case(n, entry, mode, with_, kind, 1, w, 2, lo))
+                            n += 1
     # multi-step entry points: learn the number of datagrams, then put the fault at every step
     probe = [case(f"probe{j}", e, network=nw) for j, (e, nw) in enumerate((e, nw) for e in MULTI for nw in (2,))]
     ptrace = sc.run_cases("probe", probe)
